@@ -999,6 +999,115 @@ def r04i(rep, F):
     rep.require_count('R04i', 'edge-cost sinks with resolved provenance', n, 38)
 
 
+def r04j(rep, F):
+    rep.rule('R04j', 'a running cost and the item it belongs to move together: where a planner function assigns a cost-typed variable ACC and a '
+                     'node-typed variable SEL (pointer / shared pointer to a Motion, Vertex or State) side by side in at least two blocks -- '
+                     'the (best node, its cost) idiom -- every block that assigns ACC also assigns one of the SELs it is paired with.  A '
+                     'branch that updates the cost alone leaves the old node to be reported with the new cost')
+    n = 0
+    for f in F.functions:
+        if not f.body or '/planners/' not in f.file or not f.file.endswith('.cpp'):
+            continue
+        blocks = []
+        for blk in [x for x in f.walk() if x['k'] == 'CompoundStmt']:
+            tg = {}
+            for cid in blk['ch']:
+                y = f.strip(cid)
+                if y is None:
+                    continue
+                t = None
+                if y['k'] == 'BinaryOperator' and y.get('op') == '=':
+                    t = f.strip(y['ch'][0])
+                elif y['k'] == 'CXXOperatorCallExpr' and y.get('oop') == '=' and len(y['ch']) == 2:
+                    t = f.strip(y['ch'][0])
+                if t is not None and (t['k'] == 'DeclRefExpr' or (t['k'] == 'MemberExpr' and t['ch'] and (f.strip(t['ch'][0]) or {}).get('k') == 'CXXThisExpr')):
+                    tg[f.fp(t['id'])] = (t.get('ty') or '')
+            if tg:
+                blocks.append((blk, tg))
+        costs = {k for _, tg in blocks for k, ty in tg.items() if re.search(r'Cost$|^(const )?double$', ty)}
+        items = {k for _, tg in blocks for k, ty in tg.items() if re.search(r'Motion|Vertex|State', ty) and ('*' in ty or 'shared_ptr' in ty or 'Ptr' in ty)}
+        # running bounds: variables that some condition compares a candidate against (second argument of isCostBetterThan, right side of <)
+        bounds = set()
+        for x in f.walk():
+            if x.get('callee') in BETTER and len(args(f, x)) == 2:
+                b = f.strip(args(f, x)[1])
+                if b is not None:
+                    bounds.add(f.fp(b['id']))
+            elif x['k'] == 'BinaryOperator' and x.get('op') == '<':
+                b = f.strip(x['ch'][1])
+                if b is not None:
+                    bounds.add(f.fp(b['id']))
+        for c in sorted(costs & bounds):
+            partners = {i for i in items if len([1 for _, tg in blocks if c in tg and i in tg]) >= 2}
+            if not partners:
+                continue
+            for blk, tg in blocks:
+                if c not in tg:
+                    continue
+                n += 1
+                ok = bool(partners & set(tg))
+                rep.add('R04j', f.name, 'cost-with-item[%s]#%d' % (nofp(c), f.line(blk)), ok, f.where(blk),
+                        '%s assigned together with %s' % (nofp(c), ', '.join(sorted(nofp(p) for p in partners & set(tg)))) if ok else
+                        '%s is assigned in this block without %s, which accompanies it in the other %d blocks: the reported node and the reported '
+                        'cost come apart' % (nofp(c), ' / '.join(sorted(nofp(p) for p in partners)), len([1 for _, t2 in blocks if c in t2]) - 1))
+    rep.require_count('R04j', 'cost updates paired with their item', n, 8)
+
+
+def r04k(rep, F):
+    rep.rule('R04k', 'cost recurrences stay within one cost field: where a tree-node record has several cost-like fields (cost / incCost, '
+                     'costApx_ / costLb_, ...) a store X->F = E whose value reads, directly or through locals of the function, the cost '
+                     'field G of another node reads G = F (the child\'s approximate cost is built from the parent\'s approximate cost, the '
+                     'lower bound from the lower bound); incremental fields (incCost) are additive terms, not recurrences, and are skipped')
+    n = 0
+    costf = {}
+    for name, rs in F.records.items():
+        cf = {fl['name'] for fl in rs[0].get('fields', []) if re.search(r'[cC]ost', fl['name']) and re.search(r'Cost$|double$', fl['ty'])}
+        if len(cf) >= 2 and any('parent' in fl['name'] for fl in rs[0].get('fields', [])):
+            costf[name] = cf
+    for f in F.functions:
+        if not f.body or '/planners/' not in f.file:
+            continue
+        defs = None
+        for x in f.walk():
+            t = r = None
+            if x['k'] == 'BinaryOperator' and x.get('op') == '=':
+                t, r = f.strip(x['ch'][0]), x['ch'][1]
+            elif x['k'] == 'CXXOperatorCallExpr' and x.get('oop') == '=' and len(x['ch']) == 2:
+                t, r = f.strip(x['ch'][0]), x['ch'][1]
+            if t is None or t['k'] != 'MemberExpr':
+                continue
+            rec = (t.get('q') or '').rsplit('::', 1)[0]
+            if rec not in costf or t.get('name') not in costf[rec] or t['name'].startswith('inc'):
+                continue
+            X = f.fp(t['ch'][0])
+            if defs is None:
+                defs = _all_defs(f, F)
+            # cost fields of other nodes read by the value, through single-level local definitions
+            reads = []
+            work, seen = [r], set()
+            while work:
+                e = work.pop()
+                for z in f.walk(e):
+                    if z['k'] == 'MemberExpr' and (z.get('q') or '').rsplit('::', 1)[0] == rec and z.get('name') in costf[rec] and z['ch']:
+                        if f.fp(z['ch'][0]) != X:
+                            reads.append(z)
+                    elif z['k'] == 'DeclRefExpr' and z.get('dk') == 'Local':
+                        k = '%s#%d' % (z['name'], z['did'])
+                        if k not in seen:
+                            seen.add(k)
+                            work.extend(d for d in defs.get(k, []) if not isinstance(d, tuple))
+            reads = [z for z in reads if not z['name'].startswith('inc')]
+            if not reads:
+                continue
+            n += 1
+            bad = [z for z in reads if z['name'] != t['name']]
+            rep.add('R04k', f.name, 'recurrence[%s]#%d' % (t['name'], f.line(x)), not bad, f.where(x),
+                    '%s built from the same field of the other node' % t['name'] if not bad else
+                    '%s of %s is computed from %s of %s: two different cost notions are mixed, the stored cost is no longer the cost of the '
+                    'stored path' % (t['name'], nofp(X), bad[0]['name'], nofp(f.fp(bad[0]['ch'][0]))))
+    rep.require_count('R04k', 'cost recurrences', n, 7)
+
+
 def run(rep):
     F = facts.load_units(UNITS)
     rep.units.update(UNITS)
@@ -1011,3 +1120,5 @@ def run(rep):
     r04g(rep, F)
     r04h(rep, F)
     r04i(rep, F)
+    r04j(rep, F)
+    r04k(rep, F)
